@@ -343,6 +343,53 @@ pub fn run(tier: &str) -> ! {
         rep.acc.merge(acc);
     }
 
+    // many long atoms: the sum of the atom scores leaves the 16-bit range (an atom's own score is
+    // a u16, the pattern's a u32)
+    {
+        let mut acc = Acc::new();
+        let word: String = "ab-cd_ef/gh ij".chars().cycle().take(120).collect();
+        let hay_text = format!("{word} tail");
+        let hay = Utf32String::from(hay_text.as_str());
+        for (cname, cfg) in &cfgs {
+            let mut m = Matcher::new(cfg.clone());
+            for needle_len in [20usize, 60, 100, 120] {
+                let text: String = word.chars().take(needle_len).filter(|c| *c != ' ').collect();
+                let atom = Atom::new(&text, CaseMatching::Smart, Normalization::Smart, nucleo_matcher::pattern::AtomKind::Fuzzy, false);
+                let alone = atom.score(hay.slice(..), &mut Matcher::new(cfg.clone()));
+                for k in [1usize, 2, 3, 8, 16, 26, 27, 28, 29, 30, 40, 64, 100] {
+                    acc.evaluations += 1;
+                    acc.states += 1;
+                    acc.transitions += 2;
+                    acc.nontrivial += 1;
+                    let mut pat = Pattern::default();
+                    pat.atoms = vec![atom.clone(); k];
+                    let want = alone.map(|s| s as u32 * k as u32);
+                    let got = std::panic::catch_unwind(std::panic::AssertUnwindSafe(|| pat.score(hay.slice(..), &mut m)));
+                    let mut idx = Vec::new();
+                    let got_i = std::panic::catch_unwind(std::panic::AssertUnwindSafe(|| pat.indices(hay.slice(..), &mut m, &mut idx)));
+                    let describe = |which: &str, g: String| json!({"atom_needle_len": text.chars().count(), "atoms": k, "config": cname, "entry": which, "one_atom_alone": alone, "expected": want, "got": g});
+                    match got {
+                        Ok(g) if g == want => {}
+                        Ok(g) => acc.violation("C15/Pattern::score/many_atoms", "Pattern::score of many atoms is not the sum of the atoms' scores", || describe("score", format!("{g:?}"))),
+                        Err(_) => {
+                            m = Matcher::new(cfg.clone());
+                            acc.violation("C15/Pattern::score/many_atoms", "Pattern::score of many atoms panicked", || describe("score", "panic".into()))
+                        }
+                    }
+                    match got_i {
+                        Ok(g) if g == want => {}
+                        Ok(g) => acc.violation("C15/Pattern::indices/many_atoms", "Pattern::indices of many atoms does not return the sum of the atoms' scores", || describe("indices", format!("{g:?}"))),
+                        Err(_) => {
+                            m = Matcher::new(cfg.clone());
+                            acc.violation("C15/Pattern::indices/many_atoms", "Pattern::indices of many atoms panicked", || describe("indices", "panic".into()))
+                        }
+                    }
+                }
+            }
+        }
+        rep.acc.merge(acc);
+    }
+
     // multi-column patterns: every pair of column texts x every pair of haystacks
     let mut acc = Acc::new();
     for (cname, cfg) in &cfgs {
